@@ -213,6 +213,7 @@ void Node_MemPort::simulateEvaluate(sim::SimulatorCallbacks &simCallbacks, sim::
 						auto index = addr * getBitWidth();
 						if (index >= memSize) {
 							state.clearRange(sim::DefaultConfig::DEFINED, outOffset, outSize);
+							first = false;
 							break;
 						}
 
